@@ -226,11 +226,23 @@ def advanceToken (feat : Option Bool) (pos : Nat) : List Char → LexStep
       let more := rest.takeWhile notWs
       .diag .lexUnknown (pos + c.utf8Size - 1) (utf8Len more + 1)
 
-/-- `advance_real`: skips (at most) one white-space token. -/
+/-- The loop of `advance_real`.  Each round consumes at least one character, so the unread text
+itself serves as fuel (one element per round; no length is computed): when the fuel is used up the
+text is empty and `advance_token` answers `Eof` (`advanceRealLoop_real` in `Proofs/AsmLex.lean`:
+the result is never white space or a comment). -/
+def advanceRealLoop (feat : Option Bool) : List Char → Nat → List Char → LexStep
+  | [], pos, rest => advanceToken feat pos rest
+  | _ :: fuel, pos, rest =>
+    match advanceToken feat pos rest with
+    | .tok t pos' rest' =>
+      if t.kind = .whitespace ∨ t.kind = .comment then advanceRealLoop feat fuel pos' rest'
+      else .tok t pos' rest'
+    | r => r
+
+/-- `advance_real`: the next token that is neither white space nor a comment.  (Before the fix of
+the C01 finding it skipped at most one white-space token and no comment: a comment between
+`.fill` / `.blkw` / `.stringz` and its operand was a `preproc::bad_lit` error.) -/
 def advanceReal (feat : Option Bool) (pos : Nat) (rest : List Char) : LexStep :=
-  match advanceToken feat pos rest with
-  | .tok t pos' rest' =>
-    if t.kind = .whitespace then advanceToken feat pos' rest' else .tok t pos' rest'
-  | r => r
+  advanceRealLoop feat rest pos rest
 
 end Lace.Asm
